@@ -14,7 +14,7 @@ import (
 var Activity atomic.Value
 
 // MemoryGuardLimit is the heap size (bytes) beyond which the run is stopped.
-var MemoryGuardLimit uint64 = 12 << 30
+var MemoryGuardLimit uint64 = 40 << 30
 
 // StartMemoryGuard stops the process with exit 2 (inconclusive, never a violation) before the
 // operating system has to kill it, and says what was running.
